@@ -11,6 +11,8 @@ ENUM = True
 
 LOCK, WRITE, INCR, READH, RELEASE, CANCEL, MOVE = 0, 4, 5, 6, 7, 8, 9
 LS, TLS, TLSF, TLSU, READS, DROPS, COPYS = 10, 11, 12, 13, 14, 15, 16
+RELEASE_UNW = 17          # the same release, run by a destructor while an unrelated exception unwinds the stack
+RELEASES = (RELEASE, RELEASE_UNW)
 SHARED = (LS, TLS, TLSF, TLSU)
 # own steps of the operations (for boundary-aimed schedules)
 LOCK_STEPS = 9       # invoke | lock ldc inc ldr call rb re dec
@@ -45,7 +47,7 @@ def _writer_session(rng, nw, vals, end=None):
     if rng.chance(1, 4):
         ops.append([READH, s])
     if end is None:
-        end = CANCEL if rng.chance(1, 4) else RELEASE
+        end = CANCEL if rng.chance(1, 4) else (RELEASE_UNW if rng.chance(1, 5) else RELEASE)
     if end is not False:
         ops.append([end, s])
     return ops
@@ -123,7 +125,7 @@ def gen(rng, tier, spec):
     elif edge == 1:
         # operations on slots in the wrong state / out of range / codes that cannot be driven: refused
         t = rng.below(nt)
-        extra = [rng.pick([[WRITE, 0, 3], [INCR, 0], [READH, 0], [RELEASE, 0], [CANCEL, 0], [MOVE, 0, 1], [MOVE, 0, 0],
+        extra = [rng.pick([[WRITE, 0, 3], [INCR, 0], [READH, 0], [RELEASE, 0], [RELEASE_UNW, 0], [RELEASE_UNW, nw], [CANCEL, 0], [MOVE, 0, 1], [MOVE, 0, 0],
                            [READS, 0], [DROPS, 0], [COPYS, 0, 1], [LOCK, nw], [LS, ns], [READS, ns + 1], [1, 0], [2, 0], [3, 0],
                            [LS, 0], [LS, 0], [COPYS, 0, 0]])
                  for _ in range(rng.range(1, 4))]
@@ -179,7 +181,7 @@ def gen_small(rng, spec):
     """small programs for the exhaustive enumeration of schedules"""
     vals = _Vals()
     shape = rng.below(5)
-    w1 = [[LOCK, 0], [WRITE, 0, vals.fresh()], [RELEASE, 0]]
+    w1 = [[LOCK, 0], [WRITE, 0, vals.fresh()], [rng.pick([RELEASE, RELEASE_UNW]), 0]]
     w2 = [[LOCK, 0], [INCR, 0], [rng.pick([RELEASE, CANCEL]), 0]]
     r1 = [[LS, 0], [READS, 0], [DROPS, 0]]
     r2 = [[LS, 0], [LS, 1], [READS, 0], [READS, 1]]
@@ -283,11 +285,11 @@ class _Replay:
                 s = where.pop((t, _arg(o, 0)), None)
                 if s is not None:
                     where[(t, _arg(o, 1))] = s
-            elif c in (RELEASE, CANCEL) and (ok or not o['done']):
+            elif c in RELEASES + (CANCEL,) and (ok or not o['done']):
                 # the handle leaves its slot at the invocation
                 s = where.pop((t, _arg(o, 0)), None)
                 if s is not None:
-                    s['end'], s['kind'] = o, c
+                    s['end'], s['kind'] = o, (RELEASE if c in RELEASES else c)
         self.sessions.sort(key=lambda s: s['lock']['end'])
         # sequential replay in the order in which lock() returned
         self.values = [self.init]           # committed values, in commit order
@@ -447,7 +449,7 @@ def mon_no_lost_update(case, lines):
     if _verdict(lines) == 3:
         return None
     rp = _Replay(case, lines)
-    if any(o['code'] == RELEASE and not o['done'] for o in rp.ops):
+    if any(o['code'] in RELEASES and not o['done'] for o in rp.ops):
         return None
     f = _final(lines)
     if not f or len(f) < 2:
@@ -482,7 +484,7 @@ def mon_ledger(case, lines):
     # the version a snapshot holds = the number of readingLeft flips before its load of readingLeft
     flips = []
     for o in rp.ops:
-        if o['code'] == RELEASE:
+        if o['code'] in RELEASES:
             st = [e for e in o['evs'] if e[1] == K['STORE']]
             if st:
                 flips.append(st[0][0])
@@ -558,7 +560,7 @@ def mon_exn_lock(case, lines):
                         o['tid'], o['end'], nl, nu, ks[0][0] if ks else None)
                 if len(rm) != 2 or rm[0][1] != rm[1][1]:
                     return 'lock() of thread %d (line %d) did not release its read registration' % (o['tid'], o['end'])
-        if o['code'] == RELEASE and o['ret'] == 0:
+        if o['code'] in RELEASES and o['ret'] == 0:
             ks = [e[1] for e in o['evs'] if e[1] != K['RET']]
             if len(ks) < 2 or ks[-1] != K['UNLOCK'] or ks[-2] != K['UNLOCK']:
                 return 'release of thread %d (line %d) does not end with unlock(inner), unlock(outer)' % (o['tid'], o['end'])
